@@ -15,7 +15,7 @@ pub struct P06;
 pub static C06: P06 = P06;
 
 pub const CONTENTS05: [&str; 6] = ["", "a", "bb cc dd", "e<br>f", "中中中中中 g", "<table><tr><td>alpha</td><td>b</td></tr></table>"];
-pub const CONTENTS06: [&str; 6] = ["", "X", "X1 X2 X3", "X4<br>X5", "X6X7X8X9", "X0"];
+pub const CONTENTS06: [&str; 6] = ["", "X", "X1 X2 X3", "X4<br>X5", "X6X7X8X9", "X0<br><br>X1"];
 
 #[derive(Debug, PartialEq)]
 pub enum Form {
@@ -169,6 +169,9 @@ struct Case {
     /// wide shapes use the first two content classes only (empty, one short token)
     #[serde(default)]
     reduced: bool,
+    /// C06: rendered with pad_block_width
+    #[serde(default)]
+    pad: bool,
 }
 
 struct Shape {
@@ -190,8 +193,8 @@ fn shapes(tier: Tier, ncontents: usize) -> Vec<Shape> {
     let mut v: Vec<Shape> = list.into_iter().map(|(r, c)| Shape { rows: r, cols: c, n: n_tables(r, c, ncontents), reduced: false }).collect();
     // wide tables: all colspan tilings, cells empty or one short token
     let wide: Vec<(usize, usize)> = match tier {
-        Tier::Quick => vec![(1, 5), (1, 6), (1, 8)],
-        Tier::Thorough => vec![(1, 5), (1, 6), (1, 8), (2, 5), (3, 3), (1, 10)],
+        Tier::Quick => vec![(1, 5), (1, 6), (1, 8), (2, 4), (2, 5)],
+        Tier::Thorough => vec![(1, 5), (1, 6), (1, 8), (2, 4), (2, 5), (3, 3), (1, 10)],
     };
     v.extend(wide.into_iter().map(|(r, c)| Shape { rows: r, cols: c, n: n_tables(r, c, 2), reduced: true }));
     v
@@ -265,7 +268,7 @@ fn check05(t: &TableCase, c: &Case, cx: &mut Cx) {
                 }
             }
             cx.violation(&kind, || json!({"case": serde_json::to_value(c).unwrap(), "html": t.html, "detail": msg, "output": s,
-                "as_unit_test": format!("#[test] fn c05_replay() {{ let s = html2text::config::plain().string_from_read({:?}.as_bytes(), {}).unwrap(); /* {} {} */ print!(\"{{s}}\"); }}", t.html, c.width, kind, msg)}));
+                "as_unit_test": format!("#[test] fn c05_replay() {{ let s = {}.string_from_read({:?}.as_bytes(), {}).unwrap(); /* {} {} */ print!(\"{{s}}\"); }}", cfg.as_rust(), t.html, c.width, kind, msg)}));
         }
     }
 }
@@ -427,7 +430,7 @@ pub fn check_cells(lines: &[&str], t: &TableCase, w: usize) -> Result<bool, (Str
 }
 
 fn check06(t: &TableCase, c: &Case, cx: &mut Cx) {
-    let cfg = Cfg::plain();
+    let cfg = if c.pad { Cfg::plain().with(crate::run::Opt::Pad) } else { Cfg::plain() };
     let r = cx.render(t.html.as_bytes(), c.width, &cfg);
     cx.state((t.cells.len() + 1) as u64);
     let s = match &r {
@@ -453,7 +456,7 @@ fn check06(t: &TableCase, c: &Case, cx: &mut Cx) {
                 return;
             }
             cx.violation(&kind, || json!({"case": serde_json::to_value(c).unwrap(), "html": t.html, "detail": msg, "output": s,
-                "as_unit_test": format!("#[test] fn c06_replay() {{ let s = html2text::config::plain().string_from_read({:?}.as_bytes(), {}).unwrap(); /* {} {} */ print!(\"{{s}}\"); }}", t.html, c.width, kind, msg)}));
+                "as_unit_test": format!("#[test] fn c06_replay() {{ let s = {}.string_from_read({:?}.as_bytes(), {}).unwrap(); /* {} {} */ print!(\"{{s}}\"); }}", cfg.as_rust(), t.html, c.width, kind, msg)}));
         }
     }
 }
@@ -472,17 +475,18 @@ impl Scope for S {
         let sh = &self.shapes[si];
         let t = table_for(self.which, sh.rows, sh.cols, u, sh.reduced);
         for width in 1..=self.maxw {
-            let c = Case { rows: sh.rows, cols: sh.cols, index: u, width, reduced: sh.reduced };
+            let c = Case { rows: sh.rows, cols: sh.cols, index: u, width, reduced: sh.reduced, pad: false };
             if self.which == 5 {
                 check05(&t, &c, cx);
             } else {
                 check06(&t, &c, cx);
+                check06(&t, &Case { pad: true, ..c }, cx);
             }
         }
     }
     fn info(&self) -> Info {
         Info {
-            rule: format!("all regular tables of the listed shapes, every row independently tiled by every composition of the column count into colspans, every cell content from 6 classes ({}; wide shapes: empty or one token), x every width; plain decorator with borders; the output is parsed into a character-cell grid; non-trivial = laid out side by side with >= 2 columns", if self.which == 5 { "empty, short, three words, two lines, wide characters, a nested 1x2 table" } else { "empty, one token, three words, two lines, a long word – one unique letter per cell, one digit per word" }),
+            rule: format!("all regular tables of the listed shapes, every row independently tiled by every composition of the column count into colspans, every cell content from 6 classes ({}; wide shapes: empty or one token), x every width; plain decorator with borders; the output is parsed into a character-cell grid; non-trivial = laid out side by side with >= 2 columns", if self.which == 5 { "empty, short, three words, two lines, wide characters, a nested 1x2 table" } else { "empty, one token, three words, two lines, a long word, two lines with a blank line between – one unique letter per cell, one digit per word; each also with pad_block_width" }),
             bounds: json!({"shapes": self.shapes.iter().map(|s| json!({"rows": s.rows, "cols": s.cols, "tables": s.n, "contents": if s.reduced { "empty / one token" } else { "all classes" }})).collect::<Vec<_>>(), "widths": format!("1..={}", self.maxw), "contents": if self.which == 5 { CONTENTS05.to_vec() } else { CONTENTS06.to_vec() }}),
             assumptions: vec!["cell text never contains box drawing characters or '/'".into()],
         }
